@@ -97,7 +97,10 @@ Verdict(i) ==
             \cup F("IdxMonotone", delivered => IdxMonotone(x, y))
             \cup F("NoSkip", NoSkip(post, y, ReadableRows(post, y.tok, RowsOf(e.res.cur))))
             \cup F("ClosedNeverData", ClosedNeverData(x, e.res))
-    [] c.t = "unsub" -> F("Conform", StEq(UnsubOp(pre, c.c), post))
+    \* the buffer a subscription was spliced onto exists for as long as the subscription holds its reference (freeBuf has not
+    \* run): UnsubOp is defined on such states only; a recorded state without it is rejected under a name of its own
+    [] c.t = "unsub" -> IF \E t \in pre.tbs : Same(t, pre.cl[c.c]) THEN F("Conform", StEq(UnsubOp(pre, c.c), post))
+                        ELSE {"SubscriberBufferLive"}
     [] c.t = "expire" -> F("Conform", StEq(ExpireOp(pre, c.topic, c.skey), post))
     [] c.t = "restore" ->
          F("Conform", post.ridx = c.idx /\ \E g \in Variants : StEq(RefreshOp(pre, g), post))
